@@ -514,3 +514,35 @@ Example ex_text_cut :
   map PrefixText.fields_of (PrefixText.scan (firstn 1 (PrefixText.render ls)) []) = [[[49]]]%N /\
   map PrefixText.fields_of (PrefixText.scan (firstn 5 (PrefixText.render ls)) []) = [[[49]; [50]]; [[51]]]%N.
 Proof. exact PrefixText.text_cut_example. Qed.
+
+(* ---------------------------------------------------------------- PTS at byte level *)
+(* pts.ReadPointCloud on bytes = first scanned line -> count ([cnt] = strconv.Atoi, any function), every further line
+   -> fields -> numbers ([numval], any function) -> pts_read.  The text of a file cut at a token boundary after the
+   count line is read as exactly the token prefix ... *)
+Theorem pts_text_cut_is_token_prefix : forall cnt numval ct ls j m,
+  PrefixText.tok_ok ct -> Forall (Forall PrefixText.tok_ok) ls -> (m <= length (nth j ls []))%nat ->
+  PrefixText.pts_read_text cnt numval
+    (firstn (PrefixText.boundary (PrefixText.pts_file ct ls) (S j) m) (PrefixText.render (PrefixText.pts_file ct ls)))
+  = Pts.pts_read (cnt ct) (Pts.pts_prefix (map (map numval) ls) j m).
+Proof. exact PrefixText.pts_text_cut. Qed.
+Print Assumptions pts_text_cut_is_token_prefix.
+(* ... hence (bytes -> lines -> fields -> numbers -> cloud) every token-boundary cut of a valid PTS text is rejected,
+   except the one-point file cut after >= 3 fields *)
+Theorem prefix_pts_text : forall cnt numval ct ls n w j m,
+  PrefixText.tok_ok ct -> Forall (Forall PrefixText.tok_ok) ls ->
+  cnt ct = Some (Z.of_nat n) -> PtsProofs.pts_valid n w (map (map numval) ls) -> (j < n)%nat -> (m < w)%nat ->
+  (m <= length (nth j ls []))%nat ->
+  PrefixText.pts_read_text cnt numval
+    (firstn (PrefixText.boundary (PrefixText.pts_file ct ls) (S j) m) (PrefixText.render (PrefixText.pts_file ct ls))) = None \/
+  (n = 1%nat /\ j = 0%nat /\ (3 <= m)%nat).
+Proof. exact PrefixText.pts_text_prefix_rejected. Qed.
+Print Assumptions prefix_pts_text.
+(* a text cut before or right after the count token holds no data line: a positive count is not met *)
+Theorem prefix_pts_text_count_line : forall cnt numval ct ls n,
+  PrefixText.tok_ok ct -> cnt ct = Some (Z.of_nat (S n)) ->
+  PrefixText.pts_read_text cnt numval
+    (firstn (PrefixText.boundary (PrefixText.pts_file ct ls) 0 1) (PrefixText.render (PrefixText.pts_file ct ls))) = None /\
+  PrefixText.pts_read_text cnt numval
+    (firstn (PrefixText.boundary (PrefixText.pts_file ct ls) 0 0) (PrefixText.render (PrefixText.pts_file ct ls))) = None.
+Proof. exact PrefixText.pts_text_count_only. Qed.
+Print Assumptions prefix_pts_text_count_line.
